@@ -172,6 +172,14 @@ class StopProfile(OpProfile):
             w.schd.broadcast_mgr.put_broadcast(
                 list(points), list(namespaces),
                 [dict(s) for s in settings])
+        elif kind == 'broadcasts':
+            # several broadcast requests handled between two main-loop
+            # iterations (i.e. inside one database flush window)
+            for op, points, namespaces, settings in step[1]:
+                fn = {'set': w.schd.broadcast_mgr.put_broadcast,
+                      'clear': w.schd.broadcast_mgr.clear_broadcast}[op]
+                fn(list(points), list(namespaces),
+                   [_thaw(_freeze(s)) for s in settings])
         elif kind == 'cmd':
             _, name, kwargs = step
             w.command(name, **_thaw(_freeze(kwargs)))
